@@ -86,6 +86,14 @@ pub fn inert_inputs(maxlen: usize) -> Vec<String> {
         }
     }
     // realistic ones
+    for s in crate::alphabets::KNOWN_FOREIGN {
+        // (`CSI ? Pm h / l` with unimplemented numbers IS the implemented DECSET / DECRST with
+        // an empty mode list: inert in effect - judged in `foreign-sequence-pairs` - but dispatched)
+        if s.starts_with("\x1b[?") && (s.ends_with('h') || s.ends_with('l')) {
+            continue;
+        }
+        v.push(s.to_string());
+    }
     v.push("\x1b]8;;http://example.com\x1b\\".into());
     v.push("\x1b]0;window title\x07".into());
     v.push("\x1bPq\"1;1;10;10#0;2;0;0;0#0~~@@vv@@~~$-\x1b\\".into());
@@ -591,12 +599,117 @@ fn scalars_in_sequences(ctx: &Ctx, rep: &mut Report) {
     rep.violations += extra as u64;
 }
 
+/// Two halves make a whole: every ordered pair of known foreign sequences around each of a
+/// few implemented commands that change what such a pair could save and restore (a mode,
+/// the pen, the cursor, the margins, the screen). After `a, command, b` the terminal is
+/// where `command` alone leaves it, and stays so through the continuation.
+fn foreign_pairs(ctx: &Ctx, rep: &mut Report) {
+    use rayon::prelude::*;
+    let f = crate::alphabets::KNOWN_FOREIGN;
+    let cmds = ["\x1b[?25l", "\x1b[?7l", "\x1b[?6h", "\x1b[?1h", "\x1b[1;31m", "\x1b[2;2H", "\x1b[2;3r", "\x1b[?1049h", "\x1b[4h", "x"];
+    let pairs: Vec<(usize, usize)> = (0..f.len()).flat_map(|a| (0..f.len()).map(move |b| (a, b))).collect();
+    let bad: Vec<String> = pairs
+        .par_iter()
+        .filter_map(|&(a, b)| {
+            let r = crate::engine::guarded(|| {
+                for cmd in cmds {
+                    let mut vt = build_vt(6, 4, None);
+                    let mut w = build_vt(6, 4, None);
+                    let pre = "ab\r\ncd\x1b[1;44m";
+                    let _ = vt.feed_str(pre);
+                    let _ = w.feed_str(pre);
+                    let _ = vt.feed_str(f[a]);
+                    let _ = vt.feed_str(cmd);
+                    let _ = w.feed_str(cmd);
+                    let c = vt.feed_str(f[b]).lines;
+                    if !c.is_empty() {
+                        return Some(format!("{} , {} , {}: the last one reports changed lines {:?}", esc(f[a]), esc(cmd), esc(f[b]), c));
+                    }
+                    if obs_full(&vt) != obs_full(&w) || vt.dump() != w.dump() {
+                        return Some(format!("{} , {} , {}: not where {} alone leaves the terminal (dump {} vs {})", esc(f[a]), esc(cmd), esc(f[b]), esc(cmd), esc(&vt.dump()), esc(&w.dump())));
+                    }
+                    let cont = &CONTINUATION[..CONTINUATION.len() - 3];
+                    let _ = vt.feed_str(cont);
+                    let _ = w.feed_str(cont);
+                    if obs_full(&vt) != obs_full(&w) || vt.dump() != w.dump() {
+                        return Some(format!("{} , {} , {}: later input is understood differently", esc(f[a]), esc(cmd), esc(f[b])));
+                    }
+                }
+                None
+            });
+            match r {
+                Ok(x) => x,
+                Err(p) => Some(format!("{} ... {}: panic: {}", esc(f[a]), esc(f[b]), p)),
+            }
+        })
+        .collect();
+    let n = pairs.len() as u64 * cmds.len() as u64;
+    rep.evaluations += n;
+    rep.traces_validated += n;
+    rep.parts.push(json!({"part":"foreign-sequence-pairs","sequences":f.len(),"commands":cmds.len(),"triples":n,"violating":bad.len()}));
+    println!("part foreign-sequence-pairs: {} sequences squared x {} commands, {} violating", f.len(), cmds.len(), bad.len());
+    if let Some(d) = bad.first() {
+        emit_violation(ctx, rep, "C20", json!({"part":"foreign-sequence-pairs","oracle":"hidden-state-changed","observed":d}));
+        rep.violations += bad.len() as u64 - 1;
+    }
+}
+
+/// Small parameter VALUES for every unimplemented shape: marker x intermediate x final with
+/// each first parameter 0..=127 - through the bare parser with the continuation (a "select
+/// level 61" that quietly changes how later input is read shows there).
+fn small_parameters_every_shape(ctx: &Ctx, rep: &mut Report) {
+    use rayon::prelude::*;
+    let implemented_plain = "@ABCDEFGHIJKLMPSTWXZ`abdefghlmrstu";
+    let mut shapes: Vec<(String, String, char)> = vec![];
+    for marker in ["", "?", "<", "=", ">"] {
+        let mut inters: Vec<String> = vec!["".into()];
+        for i in 0x20u8..=0x2f {
+            inters.push((i as char).to_string());
+        }
+        for it in inters {
+            for fin in 0x40u8..=0x7e {
+                let fch = fin as char;
+                let implemented = (marker.is_empty() && it.is_empty() && implemented_plain.contains(fch)) || (marker == "?" && it.is_empty() && (fch == 'h' || fch == 'l')) || (it == "!" && fch == 'p');
+                if !implemented {
+                    shapes.push((marker.to_string(), it.clone(), fch));
+                }
+            }
+        }
+    }
+    let top = ctx.tier.pick(127u32, 1100);
+    let bad: Vec<String> = shapes
+        .par_iter()
+        .filter_map(|(m, it, fch)| {
+            for v in 0..=top {
+                for tail in ["", ";1"] {
+                    let s = format!("\x1b[{}{}{}{}{}", m, v, tail, it, fch);
+                    if let Err(e) = parser_inert(&s) {
+                        return Some(format!("{}: {}", esc(&s), e));
+                    }
+                }
+            }
+            None
+        })
+        .collect();
+    let n = shapes.len() as u64 * (top as u64 + 1) * 2;
+    rep.evaluations += n;
+    rep.traces_validated += n;
+    rep.parts.push(json!({"part":"small-parameters-every-shape","shapes":shapes.len(),"values":top+1,"inputs":n,"violating":bad.len()}));
+    println!("part small-parameters-every-shape: {} shapes x {} values x 2, {} violating", shapes.len(), top + 1, bad.len());
+    if let Some(d) = bad.first() {
+        emit_violation(ctx, rep, "C20", json!({"part":"small-parameters-every-shape","oracle":"parser-inert","observed":d}));
+        rep.violations += bad.len() as u64 - 1;
+    }
+}
+
 pub fn run(ctx: &Ctx) -> Report {
     let mut rep = Report::new();
     let sys = make(ctx.tier);
     deep_parser_sweep(ctx, &mut rep);
     shape_sweep(ctx, &mut rep, &sys);
     scalars_in_sequences(ctx, &mut rep);
+    foreign_pairs(ctx, &mut rep);
+    small_parameters_every_shape(ctx, &mut rep);
     // parser-level oracle once per inert input (independent of the seed)
     let mut pbad = 0;
     for i in &sys.inert {
@@ -627,6 +740,13 @@ pub fn run(ctx: &Ctx) -> Report {
 }
 
 pub fn replay(ctx: &Ctx, v: &Value) -> bool {
+    if v["part"] == "foreign-sequence-pairs" || v["part"] == "small-parameters-every-shape" {
+        let mut rep = Report::new();
+        let c2 = Ctx { id: ctx.id.clone(), tier: Tier::Quick, seed: 0, start: ctx.start, known: ctx.known.clone(), replay_dir: ctx.replay_dir.clone() };
+        foreign_pairs(&c2, &mut rep);
+        small_parameters_every_shape(&c2, &mut rep);
+        return rep.violations > 0;
+    }
     if v["part"] == "every-scalar-as-final-and-in-continued-strings" {
         let mut rep = Report::new();
         let c2 = Ctx { id: ctx.id.clone(), tier: Tier::Thorough, seed: 0, start: ctx.start, known: ctx.known.clone(), replay_dir: ctx.replay_dir.clone() };
